@@ -305,6 +305,10 @@ func (t *termer) val(v ssa.Value) string {
 			if len(ops) == 0 && k != nil {
 				return k.String()
 			}
+			// x * -1 is -x
+			if x.Op == token.MUL && k != nil && k.Cmp(big.NewInt(-1)) == 0 && len(ops) == 2 {
+				return "-" + ops[0]
+			}
 			if len(ops) == 1 {
 				return ops[0]
 			}
